@@ -3,7 +3,7 @@
     the axes put aside (entities at document level; values of the variables that no axis names). *)
 From Coq Require Import ZArith QArith List Bool String Lia Permutation.
 From Verif Require Import Base Cal Tables Period Builder BuilderSpec BuilderProofs BuilderGroupProofs
-  BuilderValueProofs BuilderRejectProofs BuilderOwnProofs.
+  BuilderValueProofs BuilderRejectProofs BuilderOwnProofs BuilderErrorProofs.
 Import ListNotations.
 Open Scope Z_scope.
 Open Scope res_scope.
@@ -343,4 +343,442 @@ Proof.
       rewrite (add_groups_members_other _ _ _ _ _ _ _ _ _ H2' Npp), F2. reflexivity. }
     rewrite S2, Q2, Nm. rewrite tile_members_nil. reflexivity.
   - rewrite (X3 Np), Aids. reflexivity.
+Qed.
+
+(** * What the flush stores for a variable without set-input rule *)
+
+Lemma flushed_value s e count b hs vn v :
+  buf_ok b -> flush_buffer s e count b [] = Ok hs ->
+  find_var vn (s_vars s) = Some v -> v_entity v = e_key e -> no_rule v ->
+  forall p,
+    match aget vn hs with Some h => hget h p | None => None end
+    = option_map (fun arr => repeat_list arr (count / List.length arr)) (buf_get b vn p)
+    /\ (forall arr, buf_get b vn p = Some arr ->
+          List.length (repeat_list arr (count / List.length arr)) = count).
+Proof.
+  intros [ND FA] Fl Fv Ev (Hr & He & Hend) p.
+  destruct (flush_buffer_get _ _ _ _ _ _ ND Fl) as (Get & Oth).
+  unfold buf_get. destruct (aget vn b) as [entries|] eqn:Ge.
+  2:{ rewrite (Oth vn (aget_none_notin _ _ Ge)). cbn. split; [reflexivity|discriminate]. }
+  destruct (Get vn entries v (aget_In _ _ _ Ge) Fv Ev) as (h & Ah & Fh). cbn [aget] in Fh. rewrite Ah.
+  assert (NoDup (map fst entries)) as NDe.
+  { rewrite Forall_forall in FA. apply (FA _ (aget_In _ _ _ Ge)). }
+  assert (NoDup (map fst (sort_periods entries))) as NDk.
+  { eapply Permutation_NoDup; [apply Permutation_map; symmetry; apply sort_periods_perm|assumption]. }
+  destruct (flush_periods_rnone v _ Hr He Hend _ _ _ NDk Fh) as (St & Other).
+  destruct (key_or_not (sort_periods entries) p) as [(arr0 & I0)|Nk].
+  - destruct (St p arr0 I0) as (Hg & Hl).
+    assert (hget entries p = Some arr0) as G.
+    { apply In_hget; [assumption|]. eapply Permutation_in; [apply sort_periods_perm|assumption]. }
+    rewrite G, Hg. cbn [option_map]. split; [reflexivity|].
+    intros arr E. inversion E; subst. assumption.
+  - rewrite (Other p Nk). cbn [hget].
+    destruct (hget entries p) as [arr|] eqn:G; [|split; [reflexivity|discriminate]].
+    exfalso. apply Nk. apply in_map_iff. exists (p, arr). split; [reflexivity|].
+    eapply Permutation_in; [symmetry; apply sort_periods_perm|]. apply hget_In. assumption.
+Qed.
+
+(** * The strided store, block by block *)
+
+Lemma slot_in_block n c i start :
+  (start < n)%nat -> (i < n)%nat ->
+  (Nat.leb start (c * n + i) && Nat.eqb (Nat.modulo (c * n + i - start) n) 0) = Nat.eqb i start.
+Proof.
+  intros Hs Hi. destruct (Nat.le_gt_cases start i) as [Le|Gt].
+  - replace (c * n + i - start)%nat with ((i - start) + c * n)%nat by lia.
+    rewrite Nat.mod_add by lia. rewrite Nat.mod_small by lia.
+    assert (Nat.leb start (c * n + i) = true) as -> by (apply Nat.leb_le; lia). cbn [andb].
+    destruct (Nat.eqb i start) eqn:Q.
+    + apply Nat.eqb_eq in Q. subst. rewrite Nat.sub_diag. reflexivity.
+    + apply Nat.eqb_neq in Q. apply Nat.eqb_neq. lia.
+  - assert (Nat.eqb i start = false) as -> by (apply Nat.eqb_neq; lia).
+    destruct c.
+    + assert (Nat.leb start (0 * n + i) = false) as -> by (apply Nat.leb_gt; lia). reflexivity.
+    + replace (S c * n + i - start)%nat with ((n + i - start) + c * n)%nat by lia.
+      rewrite Nat.mod_add by lia. rewrite Nat.mod_small by lia.
+      rewrite andb_false_iff. right. apply Nat.eqb_neq. lia.
+Qed.
+
+(* the rest [b] of block number [c], from offset [i0] on, followed by the later blocks *)
+Lemma strided_block n c start rest : forall b i0 vals,
+  (start < n)%nat -> (i0 + List.length b = n)%nat ->
+  set_strided (b ++ rest) (c * n + i0) start n vals
+  = if Nat.leb i0 start
+    then match vals with
+         | [] => Err EValue
+         | w :: vals' => let* r := set_strided rest (S c * n) start n vals' in
+                         Ok (list_set (start - i0) w b ++ r)
+         end
+    else let* r := set_strided rest (S c * n) start n vals in Ok (b ++ r).
+Proof.
+  induction b as [|y b IH]; intros i0 vals Hs Hl; cbn [List.length] in Hl.
+  - assert (Nat.leb i0 start = false) as -> by (apply Nat.leb_gt; lia).
+    cbn [app]. replace (c * n + i0)%nat with (S c * n)%nat by lia.
+    destruct (set_strided rest (S c * n) start n vals); reflexivity.
+  - cbn [app set_strided]. rewrite slot_in_block by lia.
+    destruct (Nat.eqb i0 start) eqn:Q.
+    + apply Nat.eqb_eq in Q. subst i0. rewrite Nat.leb_refl, Nat.sub_diag.
+      destruct vals as [|w vals']; [reflexivity|].
+      replace (S (c * n + start)) with (c * n + S start)%nat by lia.
+      rewrite (IH (S start) vals' Hs) by lia.
+      assert (Nat.leb (S start) start = false) as -> by (apply Nat.leb_gt; lia).
+      cbn [list_set]. destruct (set_strided rest (S c * n) start n vals'); reflexivity.
+    + apply Nat.eqb_neq in Q.
+      replace (S (c * n + i0)) with (c * n + S i0)%nat by lia.
+      rewrite (IH (S i0) vals Hs) by lia.
+      destruct (Nat.leb i0 start) eqn:L.
+      * apply Nat.leb_le in L. assert (Nat.leb (S i0) start = true) as -> by (apply Nat.leb_le; lia).
+        destruct vals as [|w vals']; [reflexivity|].
+        replace (start - i0)%nat with (S (start - S i0)) by lia. cbn [list_set].
+        destruct (set_strided rest (S c * n) start n vals'); reflexivity.
+      * apply Nat.leb_gt in L. assert (Nat.leb (S i0) start = false) as -> by (apply Nat.leb_gt; lia).
+        destruct (set_strided rest (S c * n) start n vals); reflexivity.
+Qed.
+
+(* [cells] blocks equal to [blk], one value per block *)
+Lemma strided_blocks n start blk : forall vals c,
+  (start < n)%nat -> List.length blk = n ->
+  set_strided (repeat_list blk (List.length vals)) (c * n) start n vals
+  = Ok (List.concat (map (fun w => list_set start w blk) vals)).
+Proof.
+  induction vals as [|w vals IH]; intros c Hs Hl; cbn [List.length repeat_list map List.concat].
+  - reflexivity.
+  - pose proof (strided_block n c start (repeat_list blk (List.length vals)) blk 0 (w :: vals) Hs) as B.
+    rewrite Nat.add_0_r in B. rewrite B by lia. cbn [Nat.leb]. rewrite Nat.sub_0_r.
+    rewrite (IH (S c) Hs Hl). reflexivity.
+Qed.
+
+Lemma nth_error_concat_blocks {A} (blocks : list (list A)) n : forall c i,
+  (forall b, In b blocks -> List.length b = n) -> (i < n)%nat ->
+  nth_error (List.concat blocks) (c * n + i)
+  = match nth_error blocks c with Some b => nth_error b i | None => None end.
+Proof.
+  induction blocks as [|b blocks IH]; intros c i Hl Hi.
+  - cbn. destruct c; destruct (0 * n + i)%nat; try reflexivity; destruct (S c * n + i)%nat; reflexivity.
+  - cbn [List.concat]. pose proof (Hl b (or_introl eq_refl)) as Lb. destruct c.
+    + cbn [Nat.mul Nat.add nth_error]. apply nth_error_app1. lia.
+    + rewrite nth_error_app2 by (cbn [Nat.mul]; lia).
+      replace (S c * n + i - List.length b)%nat with (c * n + i)%nat by (cbn [Nat.mul]; lia).
+      cbn [nth_error]. apply IH; [|assumption]. intros b' I. apply Hl. right. assumption.
+Qed.
+
+(** * One parallel axis on a variable of the persons *)
+
+Lemma repeat_repeat_list {A} (y : A) n cells :
+  repeat y (cells * n) = repeat_list (repeat y n) cells.
+Proof.
+  induction cells as [|c IH]; cbn [Nat.mul repeat_list]; [reflexivity|].
+  rewrite repeat_app, IH. reflexivity.
+Qed.
+
+Lemma mapM_length {A B} (f : A -> res B) l : forall ys, mapM f l = Ok ys -> List.length ys = List.length l.
+Proof.
+  induction l as [|a l IH]; intros ys H; cbn [mapM] in H; [inversion H; reflexivity|].
+  destruct (f a); [|discriminate]. destruct (mapM f l) eqn:E; [|discriminate].
+  inversion H; subst. cbn. rewrite (IH _ eq_refl). reflexivity.
+Qed.
+
+Lemma mapM_nth {A B} (f : A -> res B) l : forall ys c a,
+  mapM f l = Ok ys -> nth_error l c = Some a -> exists w, f a = Ok w /\ nth_error ys c = Some w.
+Proof.
+  induction l as [|a0 l IH]; intros ys c a H Hn; [destruct c; discriminate|].
+  cbn [mapM] in H. destruct (f a0) as [w0|] eqn:E0; [|discriminate].
+  destruct (mapM f l) as [ys0|] eqn:E; [|discriminate]. inversion H; subst.
+  destruct c; cbn [nth_error] in *.
+  - inversion Hn; subst. eauto.
+  - eapply IH; [reflexivity|eassumption].
+Qed.
+
+Lemma linspace_length mn mx num : 0 < num -> List.length (linspace mn mx num) = Z.to_nat num.
+Proof.
+  intros H. unfold linspace. destruct (num =? 1) eqn:E.
+  - apply Z.eqb_eq in E. subst. reflexivity.
+  - rewrite map_length. unfold zrange. rewrite map_length, seq_length. reflexivity.
+Qed.
+
+Lemma suffix_ids_length l : List.length (suffix_ids l) = List.length l.
+Proof.
+  unfold suffix_ids. rewrite map_length, combine_length, seq_length. lia.
+Qed.
+
+Lemma add_person_instances_arrays_ok x s l : forall st st',
+  add_person_instances x s st l = Ok st' -> arrays_ok s (s_person s) st -> arrays_ok s (s_person s) st'.
+Proof.
+  induction l as [|[pid j] l IH]; intros st st' H A; cbn [add_person_instances] in H.
+  - inversion H; subst. assumption.
+  - destruct j; try discriminate. apply bind_ok in H. destruct H as (st1 & H1 & H2).
+    eapply IH; [eassumption|]. eapply init_arrays_ok; eassumption.
+Qed.
+
+Section SingleAxis.
+  Variables (x : ext) (s : sys) (doc : list (string * json)) (dims : json) (a : axis).
+  Variables (sim base : simulation) (persons : list (string * json)).
+  Variables (v : variable) (t : string) (p : period).
+  Hypothesis NDp : NoDup (plurals s).
+  Hypothesis NDs : NoDup (singulars s).
+  Hypothesis Hax : aget "axes"%string doc = Some dims.
+  Hypothesis Hnn : dims <> JNull.
+  Hypothesis Hds : parse_dims dims = Ok [[a]].
+  Hypothesis Hb : build_from_entities x s doc = Ok sim.
+  Hypothesis Hbase : build_from_entities x s (aremove "axes" doc) = Ok base.
+  Hypothesis Hpers : aget (e_plural (s_person s)) (aremove "axes" doc) = Some (JObj persons).
+  Hypothesis Fv : find_var (a_name a) (s_vars s) = Some v.
+  Hypothesis Ev : v_entity v = e_key (s_person s).
+  Hypothesis Nr : no_rule v.
+  Hypothesis Ht : a_period a = Some t.
+  Hypothesis Hp : canon_key (tok x t) = Ok p.
+
+  Let pp := e_plural (s_person s).
+  Let params := aremove "axes" doc.
+  Let cells := Z.to_nat (a_count a).
+  Let n := List.length persons.
+  Let vn := a_name a.
+
+  (* the stages shared by the two builds *)
+  Lemma single_axis_stages :
+    exists st1 st2 st3,
+      add_person_instances x s (set_ids b_empty pp (map fst persons)) persons = Ok st1 /\
+      add_groups x s st1 (get_ids st1 pp) params false (s_groups s) = Ok st2 /\
+      expand_axes x s st2 [[a]] = Ok st3 /\
+      mapM (finalize_population s st3) (entities s) = Ok sim /\
+      mapM (finalize_population s st2) (entities s) = Ok base.
+  Proof.
+    unfold build_from_entities in Hb. fold params pp in Hb. rewrite Hax in Hb.
+    unfold params, pp in *. rewrite Hpers in Hb.
+    destruct (existsb _ (aremove "axes" doc)) eqn:Ex; [discriminate|].
+    destruct persons as [|i0 rest] eqn:Ep; [discriminate|]. rewrite <- Ep in *.
+    apply bind_ok in Hb. destruct Hb as (st1 & H1 & Hb').
+    apply bind_ok in Hb'. destruct Hb' as (st2 & H2 & Hb').
+    assert (exists st3, expand_axes x s st2 [[a]] = Ok st3
+                        /\ mapM (finalize_population s st3) (entities s) = Ok sim) as (st3 & H3 & Hm).
+    { destruct dims; try (exfalso; apply Hnn; reflexivity);
+        apply bind_ok in Hb'; destruct Hb' as (st3 & H3 & Hm);
+        apply bind_ok in H3; destruct H3 as (ds' & Hd' & H3);
+        rewrite Hds in Hd'; inversion Hd'; subst ds'; eauto. }
+    assert (add_groups x s st1 (get_ids st1 (e_plural (s_person s))) (aremove "axes" doc) true (s_groups s)
+            = Ok st2) as H2'.
+    { destruct dims; try (exfalso; apply Hnn; reflexivity); exact H2. }
+    unfold build_from_entities in Hbase. rewrite aremove_idem, aget_aremove_same in Hbase.
+    rewrite Ex, Hpers, Ep in Hbase. rewrite <- Ep in Hbase. rewrite H1 in Hbase. cbn [bind] in Hbase.
+    rewrite (add_groups_flag _ _ _ _ _ _ _ H2') in Hbase. cbn [bind] in Hbase.
+    unfold add_person_entity in H1.
+    exists st1, st2, st3. repeat split; try assumption.
+    apply add_groups_flag. assumption.
+  Qed.
+End SingleAxis.
+
+Lemma add_groups_buf_ok x s pids params ax gs : forall sa sb,
+  add_groups x s sa pids params ax gs = Ok sb -> buf_ok (b_buffer sa) -> buf_ok (b_buffer sb).
+Proof.
+  induction gs as [|g gs IH]; intros sa sb H B; cbn [add_groups] in H.
+  - inversion H; subst. assumption.
+  - apply bind_ok in H. destruct H as (s1 & H1 & H2). eapply IH; [eassumption|].
+    destruct (aget (e_plural g) params) as [j|].
+    + destruct j; try (eapply (add_group_entity_ok x s); eassumption);
+        destruct ax; try discriminate; inversion H1; subst; assumption.
+    + destruct ax; try discriminate; inversion H1; subst; assumption.
+Qed.
+
+Lemma expand_entities_ids pp cells l : forall st, b_ids (expand_entities st pp cells l) = b_ids st.
+Proof.
+  induction l as [|[q ids] l IH]; intros st; cbn [expand_entities]; [reflexivity|].
+  rewrite IH. destruct (String.eqb q pp); reflexivity.
+Qed.
+
+Lemma concat_blocks_length {A} (blocks : list (list A)) n :
+  (forall b, In b blocks -> List.length b = n) ->
+  List.length (List.concat blocks) = (List.length blocks * n)%nat.
+Proof.
+  induction blocks as [|b blocks IH]; intros H; cbn [List.concat List.length Nat.mul]; [reflexivity|].
+  rewrite app_length, (H b (or_introl eq_refl)), IH; [reflexivity|].
+  intros b' I. apply H. right. assumption.
+Qed.
+
+Lemma nth_error_list_set {A} (l : list A) i j w :
+  (i < List.length l)%nat ->
+  nth_error (list_set i w l) j = if Nat.eqb j i then Some w else nth_error l j.
+Proof.
+  intros H. destruct (Nat.eqb j i) eqn:Q.
+  - apply Nat.eqb_eq in Q. subst. apply nth_error_list_set_same. assumption.
+  - apply Nat.eqb_neq in Q. apply nth_error_list_set_other. congruence.
+Qed.
+
+(** One parallel axis on a variable of the persons (no set-input rule), its index within the
+    persons: in the simulation built from the document with the axis, the array of the axis
+    variable at the axis period holds, in copy [c], the [c]-th value of the axis (converted to
+    the variable's type) at the axis index, and elsewhere what the simulation built without the
+    axes holds (the default when it holds nothing for that period). *)
+Theorem axes_single_person_axis x s doc dims a sim base persons v t p :
+  NoDup (plurals s) -> NoDup (singulars s) ->
+  aget "axes"%string doc = Some dims -> dims <> JNull -> parse_dims dims = Ok [[a]] ->
+  build_from_entities x s doc = Ok sim ->
+  build_from_entities x s (aremove "axes" doc) = Ok base ->
+  aget (e_plural (s_person s)) (aremove "axes" doc) = Some (JObj persons) ->
+  find_var (a_name a) (s_vars s) = Some v -> v_entity v = e_key (s_person s) -> no_rule v ->
+  a_period a = Some t -> canon_key (tok x t) = Ok p ->
+  (Z.to_nat (a_index a) < List.length persons)%nat ->
+  let cells := Z.to_nat (a_count a) in
+  let n := List.length persons in
+  let vals := linspace (a_min a) (a_max a) (a_count a) in
+  exists pop rest bpop brest h arr,
+    sim = pop :: rest /\ base = bpop :: brest /\
+    p_entity pop = e_key (s_person s) /\ p_entity bpop = e_key (s_person s) /\
+    aget (a_name a) (p_holders pop) = Some h /\ hget h p = Some arr /\
+    forall c i, (c < cells)%nat -> (i < n)%nat ->
+      if Nat.eqb i (Z.to_nat (a_index a))
+      then exists q w, nth_error vals c = Some q /\ cell_of_q v q = Ok w
+                       /\ nth_error arr (c * n + i) = Some w
+      else nth_error arr (c * n + i)
+           = match (match aget (a_name a) (p_holders bpop) with Some bh => hget bh p | None => None end) with
+             | Some barr => nth_error barr i
+             | None => Some (v_default v)
+             end.
+Proof.
+  intros NDp NDs Hax Hnn Hds Hb Hbase Hpers Fv Ev Nr Ht Hp Hidx cells n vals.
+  destruct (single_axis_stages x s doc dims a sim base persons Hax Hnn Hds Hb Hbase Hpers)
+    as (st1 & st2 & st3 & H1 & H2 & H3 & Hm & Hmb).
+  set (pp := e_plural (s_person s)) in *. set (vn := a_name a) in *.
+  set (start := Z.to_nat (a_index a)) in *.
+  (* the state after reading *)
+  set (st0 := set_ids b_empty pp (map fst persons)) in *.
+  assert (get_ids st0 pp = map fst persons) as Ids0.
+  { unfold get_ids, ids_of, st0. cbn. rewrite String.eqb_refl. reflexivity. }
+  pose proof (add_person_instances_frame _ _ _ _ _ H1) as F1.
+  assert (arrays_ok s (s_person s) st1) as A1.
+  { eapply add_person_instances_arrays_ok; [exact H1|].
+    intros vn' v' _ _ q arr G. unfold buf_get, st0 in G. cbn in G. discriminate. }
+  assert (buf_ok (b_buffer st1)) as B1.
+  { eapply add_person_instances_ok; [exact H1|]. split; constructor. }
+  pose proof (add_groups_buf_ok _ _ _ _ _ _ _ _ H2 B1) as B2.
+  assert (~ In pp (map e_plural (s_groups s))) as Npp.
+  { unfold plurals, entities in NDp. cbn [map] in NDp. inversion NDp; assumption. }
+  assert (forall g, In g (s_groups s) -> v_entity v <> e_key g) as Ng.
+  { intros g Ig E. rewrite Ev in E. unfold singulars, entities in NDs. cbn [map] in NDs.
+    inversion NDs as [|? ? Nin _]; subst. apply Nin. rewrite E. apply in_map. assumption. }
+  pose proof (add_groups_other x s vn v Fv _ _ _ _ _ _ Ng H2) as O2.
+  destruct (add_groups_other_ids _ _ _ _ _ _ pp _ _ H2 Npp) as (I2 & X2).
+  destruct (add_groups_ax _ _ _ _ _ _ _ _ H2) as (_ & X2m & X2r).
+  destruct F1 as (F1i & _ & _ & F1a & _ & _).
+  assert (b_ax_ids st2 = []) as Z1 by (rewrite X2, F1a; reflexivity).
+  assert (ids_of st2 pp = map fst persons) as Ids2.
+  { unfold ids_of. rewrite I2, F1i. unfold st0. cbn. rewrite String.eqb_refl. reflexivity. }
+  assert (get_ids st2 pp = map fst persons) as Gids2.
+  { unfold get_ids. rewrite Z1. cbn [aget]. exact Ids2. }
+  assert (len_is (b_buffer st2) vn n) as L2.
+  { intros q arr G. unfold buf_get in G. rewrite O2 in G.
+    pose proof (A1 vn v Fv Ev q arr G) as L. unfold get_count in L. fold pp in L.
+    rewrite (get_ids_frame st0 st1) in L by (eapply add_person_instances_frame; eassumption).
+    rewrite Ids0, map_length in L. exact L. }
+  assert (0 < n)%nat as Npos by (unfold n; lia).
+  (* the expansion *)
+  unfold expand_axes in H3.
+  assert (cell_count [[a]] = a_count a) as Cc by (unfold cell_count; cbn; apply Z.mul_1_l).
+  rewrite Cc in H3. destruct (a_count a <=? 0) eqn:Cz; [discriminate|]. apply Z.leb_gt in Cz.
+  fold cells pp in H3.
+  set (stx := expand_entities st2 pp cells (b_ids st2)) in *.
+  assert (b_buffer stx = b_buffer st2) as Bx by apply expand_entities_buffer.
+  assert (b_ids stx = b_ids st2) as Ix by apply expand_entities_ids.
+  apply bind_ok in H3. destruct H3 as (step & Hstep & H3).
+  assert (step = n) as ->.
+  { unfold axis_entity_step in Hstep. fold vn in Hstep. rewrite Fv in Hstep.
+    unfold entities in Hstep. cbn [find_entity_by] in Hstep. rewrite Ev, String.eqb_refl in Hstep.
+    inversion Hstep. unfold ids_of. rewrite Ix. fold (ids_of st2 (e_plural (s_person s))).
+    fold pp. rewrite Ids2. apply map_length. }
+  cbn [apply_axes dim_count] in H3. apply bind_ok in H3. destruct H3 as (sty & Hy & E3).
+  inversion E3; subst sty. clear E3.
+  pose proof (apply_axis_entities _ _ _ _ _ _ _ _ Hy) as Sent.
+  unfold apply_axis in Hy. rewrite Ht in Hy. cbn [bind] in Hy. rewrite Hp in Hy. cbn [bind] in Hy.
+  fold vn in Hy. rewrite Fv in Hy.
+  apply bind_ok in Hy. destruct Hy as (cs & Hcs & Hy).
+  destruct (Nat.eqb n 0) eqn:N0; [apply Nat.eqb_eq in N0; lia|].
+  apply bind_ok in Hy. destruct Hy as (array' & Hset & Hy). inversion Hy as [E3]. clear Hy.
+  fold vals in Hcs.
+  assert (List.length cs = cells) as Lcs.
+  { rewrite (mapM_length _ _ _ Hcs). unfold vals. apply linspace_length. assumption. }
+  rewrite buf_get_touch, Bx in Hset. fold start in Hset.
+  set (blk := match buf_get (b_buffer st2) vn p with Some arr => arr | None => default_array v n end).
+  assert (List.length blk = n) as Lblk.
+  { unfold blk. destruct (buf_get (b_buffer st2) vn p) eqn:G; [eapply L2; eassumption|].
+    unfold default_array. apply repeat_length. }
+  assert (set_strided (repeat_list blk (List.length cs)) (0 * n) start n cs = Ok array') as Hset'.
+  { rewrite Lcs. cbn [Nat.mul]. unfold blk.
+    destruct (buf_get (b_buffer st2) vn p) as [arr|] eqn:G.
+    - rewrite (L2 _ _ G), Nat.eqb_refl in Hset. exact Hset.
+    - unfold default_array in *. rewrite repeat_repeat_list in Hset. exact Hset. }
+  rewrite (strided_blocks n start blk cs 0 Hidx Lblk) in Hset'. inversion Hset' as [Earr]. clear Hset'.
+  (* the populations *)
+  unfold entities in Hm, Hmb. cbn [mapM] in Hm, Hmb.
+  destruct (finalize_population s st3 (s_person s)) as [pop|] eqn:Fp; [|discriminate].
+  destruct (mapM (finalize_population s st3) (s_groups s)) as [rest|]; [|discriminate].
+  destruct (finalize_population s st2 (s_person s)) as [bpop|] eqn:Fb; [|discriminate].
+  destruct (mapM (finalize_population s st2) (s_groups s)) as [brest|]; [|discriminate].
+  inversion Hm; inversion Hmb; subst sim base. clear Hm Hmb.
+  unfold finalize_population in Fp, Fb. fold pp in Fp, Fb.
+  apply bind_ok in Fp. destruct Fp as (hs & Flp & Ep). inversion Ep; subst pop. clear Ep.
+  apply bind_ok in Fb. destruct Fb as (bhs & Flb & Eb). inversion Eb; subst bpop. clear Eb.
+  (* the buffer after the axis *)
+  assert (buf_ok (b_buffer st3)) as B3.
+  { rewrite <- E3. cbn [set_buffer b_buffer]. apply buf_put_ok, buf_touch_ok. rewrite Bx. exact B2. }
+  assert (buf_get (b_buffer st3) vn p = Some array') as G3.
+  { rewrite <- E3. cbn [set_buffer b_buffer]. apply buf_get_put_same. }
+  destruct (flushed_value s (s_person s) _ _ hs vn v B3 Flp Fv Ev Nr p) as (Vp & Lp).
+  destruct (flushed_value s (s_person s) _ _ bhs vn v B2 Flb Fv Ev Nr p) as (Vb & Lb).
+  rewrite G3 in Vp. cbn [option_map] in Vp.
+  destruct (aget vn hs) as [h|] eqn:Ah; [|discriminate].
+  exists (mkPop (e_key (s_person s)) (get_ids st3 pp) (get_memberships st3 pp) (get_roles st3 pp) hs), rest,
+         (mkPop (e_key (s_person s)) (get_ids st2 pp) (get_memberships st2 pp) (get_roles st2 pp) bhs), brest,
+         h, (repeat_list array' (get_count st3 pp / List.length array')).
+  cbn [p_entity p_holders]. fold vn. rewrite Ah.
+  split; [reflexivity|]. split; [reflexivity|]. split; [reflexivity|]. split; [reflexivity|].
+  split; [reflexivity|]. split; [exact Vp|].
+  (* lengths *)
+  assert (List.length array' = (cells * n)%nat) as La.
+  { rewrite <- Earr. rewrite (concat_blocks_length _ n).
+    - rewrite map_length, Lcs. reflexivity.
+    - intros b Ib. apply in_map_iff in Ib. destruct Ib as (w & <- & _). rewrite list_set_length. exact Lblk. }
+  specialize (Lp array' G3). rewrite repeat_list_length, La in Lp.
+  assert (0 < cells)%nat as Cpos by (unfold cells; lia).
+  assert (1 <= get_count st3 pp / List.length array')%nat as K1.
+  { rewrite La. destruct (get_count st3 pp / (cells * n))%nat eqn:Q; [|lia].
+    cbn [Nat.mul] in Lp.
+    (* count = 0 would leave no person *)
+    exfalso.
+    pose proof (axes_entities_doc x s doc dims [[a]] _ _ NDp NDs Hax Hnn Hds Hb Hbase (s_person s)
+                  (mkPop (e_key (s_person s)) (get_ids st3 pp) (get_memberships st3 pp) (get_roles st3 pp) hs)
+                  (mkPop (e_key (s_person s)) (get_ids st2 pp) (get_memberships st2 pp) (get_roles st2 pp) bhs)
+                  (or_introl eq_refl)) as AE.
+    destruct AE as (AE & _).
+    { split; [left; reflexivity|reflexivity]. }
+    { split; [left; reflexivity|reflexivity]. }
+    cbn [p_ids] in AE. rewrite Cc in AE. fold cells in AE. rewrite Gids2 in AE.
+    unfold get_count in Lp. rewrite AE, suffix_ids_length, repeat_list_length, map_length in Lp.
+    fold n in Lp. lia. }
+  intros c i Hc Hi.
+  assert (c * n + i < List.length array')%nat as Lt by (rewrite La; nia).
+  rewrite repeat_list_one by assumption.
+  rewrite <- Earr.
+  rewrite (nth_error_concat_blocks _ n c i); [|intros b Ib; apply in_map_iff in Ib;
+                                                destruct Ib as (w & <- & _); rewrite list_set_length; exact Lblk
+                                               |exact Hi].
+  rewrite nth_error_map.
+  assert (exists w, nth_error cs c = Some w) as (w & Hw).
+  { destruct (nth_error cs c) eqn:Q; [eauto|]. apply nth_error_None in Q. lia. }
+  rewrite Hw. cbn [option_map]. rewrite nth_error_list_set by (rewrite Lblk; exact Hidx).
+  destruct (Nat.eqb i start) eqn:Qi.
+  - assert (exists q, nth_error vals c = Some q) as (q & Hq).
+    { destruct (nth_error vals c) eqn:Q; [eauto|]. apply nth_error_None in Q.
+      unfold vals in Q. rewrite linspace_length in Q by assumption. fold cells in Q. lia. }
+    destruct (mapM_nth _ _ _ _ _ Hcs Hq) as (w' & Cq & Hw'). rewrite Hw in Hw'. inversion Hw'; subst w'.
+    exists q, w. repeat split; assumption.
+  - (* elsewhere: the copy *)
+    fold vn. destruct (aget vn bhs) as [bh|] eqn:Abh.
+    + rewrite Vb. unfold blk. destruct (buf_get (b_buffer st2) vn p) as [arr|] eqn:G; cbn [option_map].
+      * specialize (Lb arr eq_refl). rewrite repeat_list_length, (L2 _ _ G) in Lb.
+        unfold get_count in *. rewrite Gids2, map_length in *. fold n in Lb |- *.
+        rewrite repeat_list_one; [reflexivity| |rewrite (L2 _ _ G); exact Hi].
+        rewrite (L2 _ _ G). destruct (n / n)%nat; lia.
+      * unfold default_array. apply nth_error_repeat. exact Hi.
+    + unfold blk. destruct (buf_get (b_buffer st2) vn p) as [arr|] eqn:G; cbn [option_map] in Vb.
+      * discriminate Vb.
+      * unfold default_array. apply nth_error_repeat. exact Hi.
 Qed.
